@@ -682,7 +682,32 @@ def r02_8(ctx):
     ctx.floor("R02.8", "insertion-modes", len(modes), 21)
 
 
+def r02_13(ctx):
+    """the tree builder's notion of whitespace is the standard's ASCII whitespace - TAB, LF, FF, CR, SPACE - wherever it splits or
+    classifies character tokens (`any_not_whitespace`, the whitespace-run split of process_to_completion)"""
+    from . import predtable as pt
+    n = 0
+    for fname, methods in (("any_not_whitespace", ("any", "all", "find", "position")), ("process_to_completion", ("pop_front_char_run",))):
+        its = [it for it in ctx.ast.walkable("html5ever") if it["k"] == "Fn" and it["name"] == fname and it.get("body") is not None and "tree_builder" in it["mod"]]
+        if len(its) != 1:
+            raise AnchorMissing("tree_builder %s" % fname)
+        for m, chain, clo in pt.closures_in(its[0], methods):
+            as_char = "chars" in chain or m == "pop_front_char_run"
+            s = pt.truth_set(ctx, "html5ever", clo, as_char)
+            if s is None:
+                continue
+            n += 1
+            ws = s if 32 in s else set(range(256)) - s
+            ok = ws == pt.ASCII_WHITESPACE
+            ctx.ob("R02.13", "whitespace-set/%s" % fname, ok, "the predicate classifies exactly TAB LF FF CR SPACE as whitespace" if ok else
+                   "whitespace is taken to be %s; the standard's ASCII whitespace is %s (missing %s, extra %s): such a character is foster-parented / clears frameset-ok / splits a text token differently" % (
+                       sorted(ws)[:8], sorted(pt.ASCII_WHITESPACE), sorted(pt.ASCII_WHITESPACE - ws), sorted(ws - pt.ASCII_WHITESPACE)[:5]), "html5ever tree_builder " + fname)
+    ctx.floor("R02.13", "whitespace-predicates", n, 2)
+
+
 def run(ctx):
+    ctx.rule("R02.13", "the tree builder's whitespace predicates denote exactly ASCII whitespace (TAB, LF, FF, CR, SPACE)")
+    ctx.guard("R02.13", "whitespace", lambda: r02_13(ctx))
     ctx.rule("R02.8", "tag dispatch of every insertion mode and of foreign content equals the independent transcription of the standard's rows: one handling per row, unlisted names handled like a fresh name, rows distinct except where the standard says 'act as anything else'")
     ctx.guard("R02.8", "dispatch", lambda: r02_8(ctx))
     ctx.rule("R02.12", "foreign content: character / comment / break-out / font / other-start-tag rows and the attribute adjustments + insertion of foreign elements are the standard's")
